@@ -59,13 +59,30 @@ func vxBuildGraph(bufsize int) *vxGraph {
 	vxSetEnv("SCIPIPE_BUFSIZE", string(rune('0'+bufsize)))
 	wf := scipipe.NewWorkflowCustomLogFile("w", 4, "log/w.log")
 	g.wf = wf
+	// connections are made either from the in-port side (in.From(out)) or from the
+	// out-port side (out.To(in)); both must give the same workflow
+	toDir := vxChoice("connectWithTo", 2) == 1
+	conn := func(in *scipipe.InPort, out *scipipe.OutPort) {
+		if toDir {
+			out.To(in)
+		} else {
+			in.From(out)
+		}
+	}
+	connP := func(in *scipipe.InParamPort, out *scipipe.OutParamPort) {
+		if toDir {
+			out.To(in)
+		} else {
+			in.From(out)
+		}
+	}
 	a := wf.NewProc("A", "vcmd w:{o:out} # {p:x}")
 	a.SetOut("out", "A.{p:x}.txt")
 	g.procs["A"] = a
 	g.withS = vxChoice("paramFromSource", 2) == 1
 	if g.withS {
 		s := NewParamSource(wf, "S", "1", "2", "3")
-		a.InParam("x").From(s.Out())
+		connP(a.InParam("x"), s.Out())
 		g.up["A"] = []string{"S"}
 		g.count["S"] = 0
 		g.count["A"] = 3
@@ -75,7 +92,7 @@ func vxBuildGraph(bufsize int) *vxGraph {
 	}
 	b := wf.NewProc("B", "vcmd r:{i:in} w:{o:out}")
 	b.SetOut("out", "{i:in|%.txt}.B.txt")
-	b.In("in").From(a.Out("out"))
+	conn(b.In("in"), a.Out("out"))
 	g.procs["B"] = b
 	g.up["B"] = []string{"A"}
 	g.count["B"] = g.count["A"]
@@ -84,16 +101,16 @@ func vxBuildGraph(bufsize int) *vxGraph {
 	g.procs["C"] = c
 	switch vxChoice("C.in", 3) {
 	case 0:
-		c.In("in").From(a.Out("out"))
+		conn(c.In("in"), a.Out("out"))
 		g.up["C"] = []string{"A"}
 		g.count["C"] = g.count["A"]
 	case 1:
-		c.In("in").From(b.Out("out"))
+		conn(c.In("in"), b.Out("out"))
 		g.up["C"] = []string{"B"}
 		g.count["C"] = g.count["B"]
 	case 2: // fan-in of two upstream out-ports into one in-port
-		c.In("in").From(a.Out("out"))
-		c.In("in").From(b.Out("out"))
+		conn(c.In("in"), a.Out("out"))
+		conn(c.In("in"), b.Out("out"))
 		g.up["C"] = []string{"A", "B"}
 		g.count["C"] = g.count["A"] + g.count["B"]
 	}
@@ -114,12 +131,12 @@ func vxBuildGraph(bufsize int) *vxGraph {
 		kb := vxChoice("D.b", 3)
 		ups := []string{}
 		if ka < 3 {
-			d.In("a").From(g.procs[names[ka]].Out("out"))
+			conn(d.In("a"), g.procs[names[ka]].Out("out"))
 			ups = append(ups, names[ka])
 		} else {
 			g.unconn = "D"
 		}
-		d.In("b").From(g.procs[names[kb]].Out("out"))
+		conn(d.In("b"), g.procs[names[kb]].Out("out"))
 		ups = append(ups, names[kb])
 		g.up["D"] = ups
 		n := g.count[names[kb]]
@@ -134,14 +151,14 @@ func vxBuildGraph(bufsize int) *vxGraph {
 	if !small && vxChoice("withF", 2) == 1 {
 		f := vxNewFileToParam(wf, "F")
 		fu := []string{"A", "B"}[vxChoice("F.in", 2)]
-		f.InPort("in").From(g.procs[fu].Out("out"))
+		conn(f.InPort("in"), g.procs[fu].Out("out"))
 		g.up["F"] = []string{fu}
 		g.count["F"] = 0
 		g.hasF = true
 		if vxChoice("withE", 2) == 1 {
 			e := wf.NewProc("E", "vcmd w:{o:out} # {p:y}")
 			e.SetOut("out", "E.{p:y}.txt")
-			e.InParam("y").From(f.OutParamPort("val"))
+			connP(e.InParam("y"), f.OutParamPort("val"))
 			g.procs["E"] = e
 			g.up["E"] = []string{"F"}
 			g.count["E"] = g.count[fu]
